@@ -181,9 +181,9 @@ func TestC46Sched(t *testing.T) {
 			scs = append(scs, scenario(3, 3, 2), scenario(4, 2, 3), scenario(2, 2, 1))
 		}
 		for i := range scs {
-			scs[i].MinB, scs[i].MaxB, scs[i].Budget = 2, 3, 40*time.Second
+			scs[i].MinB, scs[i].MaxB, scs[i].Budget = 2, 4, 40*time.Second
 			if thorough {
-				scs[i].MinB, scs[i].MaxB, scs[i].Budget = 3, 5, 4*time.Minute
+				scs[i].MinB, scs[i].MaxB, scs[i].Budget = 3, 8, 4*time.Minute
 			}
 		}
 		return scs
